@@ -97,6 +97,12 @@ claim("C05", "The real combine_stereo_routine/combine_stereo run on N symbolic, 
       "is decided by the stereo obligations of C11/C12; per-level hand-over by a CrossHair run of the real export_samples on stub trees.",
       ST + "; CrossHair for level hand-over and interleaving", "DESIGN.md 2/C05")
 
+claim("C10", "Symbolic raw sibling names go through the real make_safe_names_routine (the names ls prints) and the real parse_path (generic and AKAI token "
+      "normalisation, live tokenising regex) on blanks+name+blanks[+separator+blanks]: z3 shows every non-blank printed name resolves to exactly its item; a "
+      "two-level path with symbolic separators (/ \\ \\\\), blanks and trailing separator resolves to the leaf; an arbitrary symbolic path string either resolves "
+      "or raises ErrorInvalidPath and nothing else; rendering of solver-chosen item shapes yields one line per leaf; ls_action prints exactly the not-found "
+      "message.", ST + "; CrossHair for rendering and the ls action", "DESIGN.md 2/C10")
+
 _pending = "check not built yet in this session (work in progress; see DESIGN.md section 2 for the planned obligations)"
 for _p in ["C01","C02","C03","C04","C05","C06","C07","C09","C10","C11","C12","C13","C14","C15","C16","C17","C18","C19","C20"]:
     if _p not in CHECKS:
